@@ -1,7 +1,7 @@
 /-
   Driver operations that *interpret the translated method bodies* (`Generated/Bodies.lean`), so that the PyIR
   interpreter itself — the hand-written meaning of the translated fragment — is validated against the real
-  implementation on generated inputs (`body.validate`, `body.build`, `body.compare`, `body.overlaps`).
+  implementation on generated inputs (`body.validate`, `body.build`, `body.compare`, `body.overlaps`, `body.allele`).
 -/
 import Lean.Data.Json
 import MafModel.Model.Ops
@@ -70,6 +70,13 @@ def dispatch (j : Json) : Json :=
     let b := keyOf ((j.getObjVal? "b").toOption.getD Json.null)
     let m := if (j.getObjVal? "barcodes").toOption == some (Json.bool true) then "_LocatableOverlapIterator__overlaps_with_barcode" else "_LocatableOverlapIterator__overlaps"
     match (run Generated.Bodies.program (Bodies.host fp) "LocatableOverlapIterator" m [.cls "LocatableOverlapIterator", a, b]).map (·.1) with
+    | .ok v => Json.mkObj [("value", valJson v)]
+    | .error e => Json.mkObj [("exc", Json.str (errName e))]
+  | some "body.allele" =>
+    -- `AlleleOverlapType.equality / intersects / subset (base, other)` on two lists of texts
+    let strsOf (k : String) : Val := .list (((getArr j k).filterMap (fun x => x.getStr?.toOption)).map (fun s => Val.str s.toList))
+    let m := (getStr? j "rel").getD "equality"
+    match (run Generated.Bodies.program (Bodies.host fp) "AlleleOverlapType" m [.cls "AlleleOverlapType", strsOf "base", strsOf "other"]).map (·.1) with
     | .ok v => Json.mkObj [("value", valJson v)]
     | .error e => Json.mkObj [("exc", Json.str (errName e))]
   | some "body.skipped" =>
